@@ -263,8 +263,32 @@ def _column_normal_form(v):
 
     def fix_b(e):
         return COL(e.args[0].args[0], e.args[1].args[1])
+
+    fnm = lambda x: getattr(getattr(x, "func", None), "__name__", "")      # noqa: E731
+
+    def strip_layout(e):
+        # memory-layout / type-preserving wrappers do not change the values
+        while fnm(e) in ("ascontiguousarray", "asarray", "array", "copy", "asfortranarray") and len(e.args) >= 1:
+            e = e.args[0]
+        return e
+
+    def is_c(e):
+        # row j of the transposed stack: stack(rows).T[j]
+        if getattr(e, "func", None) != gi:
+            return False
+        b = strip_layout(e.args[0])
+        if fnm(b) not in ("attr_T", "transpose") or len(b.args) != 1:
+            return False
+        st_ = strip_layout(b.args[0])
+        return fnm(st_) in ("concatenate", "vstack", "row_stack") and st_.args and getattr(st_.args[0], "func", None) == comp and (len(st_.args) == 1 or st_.args[1] == 0) \
+            and getattr(e.args[1], "func", None) != sp.Function("idx")
+
+    def fix_c(e):
+        st_ = strip_layout(strip_layout(e.args[0]).args[0])
+        return COL(st_.args[0], e.args[1])
     v = v.replace(is_a, fix_a)
     v = v.replace(is_b, fix_b)
+    v = v.replace(is_c, fix_c)
     return v
 
 
